@@ -24,9 +24,31 @@ EXPLANATION = (
     "request() forwards its secrets unchanged; (6) the _HTTPStorageServer adapter routes renew/cancel/write-enabler "
     "secrets to the matching request parameters and marshals test/write/read vectors so that, composed with "
     "the server's unmarshalling, they equal the tuples the Foolscap adapter sends; 404 on add_lease and "
-    "advise_corrupt_share and 401 on a mutable write are translated as on the direct path. "
+    "advise_corrupt_share and 401 on a mutable write are translated as on the direct path; (7) write_share_data "
+    "writes exactly the bytes [start, stop) of the Content-Range: the offset starts at the range start (0 only "
+    "when absent), the block loop runs while `remaining > 0` and is left only when it is not, offset and "
+    "remaining both advance by len(data) between blocks, the data comes from request.content, and every return "
+    "without an error status was decided by `finished` (409 / 416 paths cannot pass as 'chunk stored'); (8) "
+    "client status handling: every normal exit of a request function has seen a 2xx status (errors are raised, "
+    "not swallowed), 201/200 lead to finished=True/False, a 206 result comes from the response body read from "
+    "position 0, decoded fields go to the same-named result fields, _request serialises the message into the "
+    "body it hands to treq; (9) server plumbing: both route wrappers return the handler's result and let "
+    "_HTTPError (204 empty read, 401, 404) through, read_range sends ContentRange as the content-range header, "
+    "registers the range producer in pull mode and returns the Deferred it fires; (10) add_or_renew_lease adds "
+    "the lease with the renew/cancel secrets before answering and raises 404 only when the index has no shares, "
+    "abort_share_upload aborts the writer it looked up, BadWriteEnablerError -> 401 and unknown share -> 404 (the "
+    "statuses the adapter translates) are raised in exactly those cases; (11) _ignore_404 swallows 404, the "
+    "adapter's add_lease swallows only 404, slot_testv_and_readv_and_writev returns (success, reads), "
+    "allocate_buckets returns (already_have, writers of allocated), the Foolscap adapter passes write vectors / "
+    "new_length through unchanged. "
     "Undecided: equivalence of results over operation histories, CBOR/base64/werkzeug value-level behaviour, "
-    "timeouts and connection handling.")
+    "timeouts and connection handling; the malformed-request guards of the server (Range / Content-Range / "
+    "Authorization / secret-length checks) and the sanity checks of the client (content type, Content-Range "
+    "present, body length == stop - start): inverting them makes every request fail at once, weakening them is "
+    "invisible with a well-formed peer; which size request.content.read is asked for (min(remaining, 64KiB)); "
+    "_ReadRangeProducer's internal accounting; the `required` ranges reported after a chunk (not used by the "
+    "adapter); the _uploads bookkeeping of allocate_buckets; exact error statuses other than "
+    "204/401/404/409/416.")
 TECHNIQUE = "static analysis: extraction of route/request/schema tables from both sides and comparison; CFG edge facts"
 
 SRV = "allmydata.storage.http_server"
@@ -375,6 +397,10 @@ def client_success_codes(req):
     ok = {code for code, edges in se.items() if any(edge_reaches_return(cfg, n, lab) for (n, lab) in edges)}
     if ok:
         return ok
+    if any(200 <= code < 300 for code in se):
+        # the function singles out a success status, but that edge cannot reach a normal return:
+        # the status is treated as a failure (e.g. `if response.code != http.OK: return decode(..) else: raise`)
+        return set()
     if calls_in_func(fn, "decode_cbor"):
         return "2xx"
     raise AnalysisError("%s neither tests response.code nor decodes with decode_cbor" % fn.qual)
